@@ -483,7 +483,9 @@ public:
 			f8_scoped_lock guard(_start_mutex);
 			if (_started)
 			{
+#if (FIX8_MPMC_SYSTEM != FIX8_MPMC_FF)
 				_msg_queue.try_push(0);
+#endif
 				if (_pmodel == pm_pipeline)
 					AsyncSocket::request_stop();
 			}
